@@ -199,11 +199,15 @@ theorem trackedCount_pos (hs : List Holder) (h : Holder) (k : Svc) (hm : h ∈ h
       omega
     · have := ih e; omega
 
+/-- the holder's bookkeeping accounts for every registration it makes: the started declarations are kept as a list
+(new subsystem), or a name that is already tracked is not registered again (legacy since the repair of `trigger_init`) -/
+def Exact (cfg : Cfg) : Prop := cfg.trackAsSet = false ∨ cfg.skipDup = true
+
 /-- the invariant of the life-cycle machine (either subsystem) -/
 structure Inv (cfg : Cfg) (st : MState) : Prop where
   regOK : RegOK st.reg
   cntGe : ∀ k, trackedCount st.holders k ≤ cntOf st.reg k
-  cntEq : cfg.trackAsSet = false → ∀ k, trackedCount st.holders k = cntOf st.reg k
+  cntEq : Exact cfg → ∀ k, trackedCount st.holders k = cntOf st.reg k
   owner : ∀ h ∈ st.holders, ∀ k ∈ h.tracked, aget k st.reg.owner = some h.owner
   noUnder : st.reg.underflow = false
 
@@ -332,6 +336,19 @@ theorem count_track (cfg : Cfg) (tr : List Svc) (d k : Svc) :
     · exact Or.inl h1
     · exact Or.inr (by simpa using h1)
 
+theorem track_exact (cfg : Cfg) (tr : List Svc) (d k : Svc) (h : cfg.trackAsSet = false ∨ tr.contains d = false) :
+    (track cfg tr d).count k = tr.count k + (if k = d then 1 else 0) := by
+  unfold track
+  have hc : (cfg.trackAsSet && tr.contains d) = false := by
+    rcases h with h | h
+    · rw [h]; rfl
+    · rw [h]; exact Bool.and_false _
+  simp only [hc, Bool.false_eq_true, if_false, List.count_append]
+  by_cases e : k = d
+  · subst e; simp
+  · have e' : ¬ (d == k) = true := by simpa using (fun h => e h.symm)
+    simp [List.count_cons, e, e']
+
 /-- what starting the declarations of one definition does to the registry -/
 theorem acquireAll_spec (cfg : Cfg) (o : OwnerName) (gen : Nat) : ∀ (decl : List (Svc × Resp)) (r : Reg) (tr : List Svc),
     RegOK r →
@@ -339,7 +356,7 @@ theorem acquireAll_spec (cfg : Cfg) (o : OwnerName) (gen : Nat) : ∀ (decl : Li
     (∃ added : Svc → Nat,
       (∀ k, cntOf (acquireAll cfg o gen r decl tr).reg k = cntOf r k + added k) ∧
       (∀ k, (acquireAll cfg o gen r decl tr).tracked.count k ≤ tr.count k + added k) ∧
-      (cfg.trackAsSet = false → ∀ k, (acquireAll cfg o gen r decl tr).tracked.count k = tr.count k + added k)) ∧
+      (Exact cfg → ∀ k, (acquireAll cfg o gen r decl tr).tracked.count k = tr.count k + added k)) ∧
     (∀ k, k ∈ (acquireAll cfg o gen r decl tr).tracked → k ∈ tr ∨ aget k (acquireAll cfg o gen r decl tr).reg.owner = some o) ∧
     (∀ k x, aget k r.owner = some x → aget k (acquireAll cfg o gen r decl tr).reg.owner = some x) := by
   intro decl
@@ -351,14 +368,21 @@ theorem acquireAll_spec (cfg : Cfg) (o : OwnerName) (gen : Nat) : ∀ (decl : Li
   | cons d ds ih =>
     intro r tr hr
     have hr1 := register_regOK r o d.1 ⟨gen, d.2⟩ hr
+    by_cases hsk : (cfg.skipDup && tr.contains d.1) = true
+    · simp only [acquireAll, hsk, if_true]; exact ih r tr hr
+    have hsk' : (cfg.skipDup && tr.contains d.1) = false := by simpa using hsk
     by_cases ha : accepts r o d.1 = true
     · obtain ⟨g1, g2, _, g4, g5⟩ := register_ok r o d.1 ⟨gen, d.2⟩ ha
-      simp only [acquireAll, g1, if_true]
+      simp only [acquireAll, hsk', Bool.false_eq_true, if_false, g1, if_true]
       obtain ⟨i1, i2, ⟨added, i3, i4, i5⟩, i6, i7⟩ := ih (register r o d.1 ⟨gen, d.2⟩).1 (track cfg tr d.1) hr1
       obtain ⟨t1, t2, t3⟩ : (∀ k, (track cfg tr d.1).count k ≤ tr.count k + (if k = d.1 then 1 else 0)) ∧
-          (cfg.trackAsSet = false → ∀ k, (track cfg tr d.1).count k = tr.count k + (if k = d.1 then 1 else 0)) ∧
+          (Exact cfg → ∀ k, (track cfg tr d.1).count k = tr.count k + (if k = d.1 then 1 else 0)) ∧
           (∀ x, x ∈ track cfg tr d.1 → x ∈ tr ∨ x = d.1) :=
-        ⟨fun k => (count_track cfg tr d.1 k).1, fun hs k => (count_track cfg tr d.1 k).2.1 hs,
+        ⟨fun k => (count_track cfg tr d.1 k).1,
+         fun hs k => track_exact cfg tr d.1 k (by
+           rcases hs with h | h
+           · exact Or.inl h
+           · right; simpa [h] using hsk'),
          (count_track cfg tr d.1 d.1).2.2⟩
       refine ⟨i1, by rw [i2, g5], ⟨fun k => added k + (if k = d.1 then 1 else 0), fun k => ?_, fun k => ?_, fun hs k => ?_⟩,
         fun k hk => ?_, fun k x hx => ?_⟩
@@ -374,7 +398,7 @@ theorem acquireAll_spec (cfg : Cfg) (o : OwnerName) (gen : Nat) : ∀ (decl : Li
       · exact i7 k x (register_owner_mono r o d.1 ⟨gen, d.2⟩ k x hx)
     · have ha' : accepts r o d.1 = false := by simpa using ha
       obtain ⟨g1, g2, _, g4, g5⟩ := register_refused r o d.1 ⟨gen, d.2⟩ ha'
-      simp only [acquireAll, g1, Bool.false_eq_true, if_false]
+      simp only [acquireAll, hsk', g1, Bool.false_eq_true, if_false]
       refine ⟨hr1, g5, ⟨fun _ => 0, fun k => by simp [g2], fun k => by simp, fun _ k => by simp⟩,
         fun k hk => Or.inl hk, fun k x hx => by rw [g4]; exact hx⟩
 
@@ -527,6 +551,10 @@ theorem eventStep_decomp (cfg : Cfg) (r : Reg) (ctx : String) (g : Nat) : ∀ hs
 def advanced (cfg : Cfg) (h : Holder) (d : Svc) (ds : List (Svc × Resp)) : Holder :=
   { h with pending := ds, tracked := track cfg h.tracked d, status := if ds.isEmpty then .running else .delayed }
 
+/-- the holder after a declaration was consumed without a registration (name tracked already) -/
+def skipped (h : Holder) (ds : List (Svc × Resp)) : Holder :=
+  { h with pending := ds, status := if ds.isEmpty then .running else .delayed }
+
 theorem inv_event (cfg : Cfg) (st : MState) (ctx : String) (g : Nat) (i : Bool) (hi : Inv cfg st) :
     Inv cfg { reg := eventStepReg cfg st.reg ctx g st.holders, holders := eventStepHolders cfg st.reg ctx g st.holders,
               inadm := i } := by
@@ -545,17 +573,40 @@ theorem inv_event (cfg : Cfg) (st : MState) (ctx : String) (g : Nat) (i : Bool) 
       rw [this]
       exact ⟨hi.regOK, hi.cntGe, hi.cntEq, hi.owner, hi.noUnder⟩
     | cons d ds =>
+      by_cases hsk : (cfg.skipDup && h.tracked.contains d.1) = true
+      · -- the name is tracked already: nothing is registered, the declaration is just consumed
+        have eh : eventHolder cfg st.reg h = some (skipped h ds) := by
+          simp only [eventHolder, hp, hsk, if_true, skipped]
+        have er : eventReg cfg st.reg h = st.reg := by simp only [eventReg, hp, hsk, if_true]
+        rw [eh, er]
+        have tc' : ∀ k, trackedCount (pre ++ (some (skipped h ds)).toList ++ post) k = trackedCount st.holders k := by
+          intro k; rw [tcs]; simp [trackedCount_append, trackedCount_cons, trackedCount_nil, skipped]
+        refine ⟨hi.regOK, fun k => by dsimp only; rw [tc']; exact hi.cntGe k,
+          fun hs k => by dsimp only; rw [tc']; exact hi.cntEq hs k, ?_, hi.noUnder⟩
+        intro x hm k hk
+        dsimp only at hm ⊢
+        rcases List.mem_append.mp hm with hm | hm
+        · rcases List.mem_append.mp hm with hm | hm
+          · exact hi.owner x (mem_pre x hm) k hk
+          · have : x = skipped h ds := by simpa using hm
+            subst this
+            exact hi.owner h mem_h k hk
+        · exact hi.owner x (mem_post x hm) k hk
+      have hsk' : (cfg.skipDup && h.tracked.contains d.1) = false := by simpa using hsk
       by_cases ha : accepts st.reg h.owner d.1 = true
       · obtain ⟨g1, g2, _, g4, g5⟩ := register_ok st.reg h.owner d.1 ⟨h.gen, d.2⟩ ha
         have eh : eventHolder cfg st.reg h = some (advanced cfg h d.1 ds) := by
-          simp [eventHolder, hp, g1, advanced]
+          simp only [eventHolder, hp, hsk', Bool.false_eq_true, if_false, g1, if_true, advanced]
         have er : eventReg cfg st.reg h = (register st.reg h.owner d.1 ⟨h.gen, d.2⟩).1 := by
-          simp [eventReg, hp, g1]
+          simp only [eventReg, hp, hsk', Bool.false_eq_true, if_false, g1, if_true]
         rw [eh, er]
         have t1 : ∀ k, (track cfg h.tracked d.1).count k ≤ h.tracked.count k + (if k = d.1 then 1 else 0) :=
           fun k => (count_track cfg h.tracked d.1 k).1
-        have t2 : cfg.trackAsSet = false → ∀ k, (track cfg h.tracked d.1).count k = h.tracked.count k + (if k = d.1 then 1 else 0) :=
-          fun hs k => (count_track cfg h.tracked d.1 k).2.1 hs
+        have t2 : Exact cfg → ∀ k, (track cfg h.tracked d.1).count k = h.tracked.count k + (if k = d.1 then 1 else 0) :=
+          fun hs k => track_exact cfg h.tracked d.1 k (by
+            rcases hs with h' | h'
+            · exact Or.inl h'
+            · right; simpa [h'] using hsk')
         have t3 : ∀ x, x ∈ track cfg h.tracked d.1 → x ∈ h.tracked ∨ x = d.1 := (count_track cfg h.tracked d.1 d.1).2.2
         have tc' : ∀ k, trackedCount (pre ++ (some (advanced cfg h d.1 ds)).toList ++ post) k
             = trackedCount pre k + ((track cfg h.tracked d.1).count k + trackedCount post k) := by
@@ -576,9 +627,10 @@ theorem inv_event (cfg : Cfg) (st : MState) (ctx : String) (g : Nat) (i : Bool) 
           · exact register_owner_mono _ _ _ _ k _ (hi.owner x (mem_post x hm) k hk)
       · have ha' : accepts st.reg h.owner d.1 = false := by simpa using ha
         obtain ⟨g1, g2, g3, g4, g5⟩ := register_refused st.reg h.owner d.1 ⟨h.gen, d.2⟩ ha'
-        have eh : eventHolder cfg st.reg h = none := by simp [eventHolder, hp, g1]
+        have eh : eventHolder cfg st.reg h = none := by
+          simp only [eventHolder, hp, hsk', g1, Bool.false_eq_true, if_false]
         have er : eventReg cfg st.reg h = releaseList (register st.reg h.owner d.1 ⟨h.gen, d.2⟩).1 h.tracked := by
-          simp [eventReg, hp, g1]
+          simp only [eventReg, hp, hsk', g1, Bool.false_eq_true, if_false]
         rw [eh, er]
         simp only [Option.toList_none, List.append_nil]
         have hr1 := register_regOK st.reg h.owner d.1 ⟨h.gen, d.2⟩ hi.regOK
@@ -667,9 +719,12 @@ theorem acquireAll_exact (cfg : Cfg) (o : OwnerName) (gen : Nat) : ∀ (decl : L
     intro r tr hn hdis k
     simp only [List.map_cons, List.nodup_cons] at hn
     have hd : d.1 ∉ tr := hdis d.1 (by simp)
+    have hsk' : (cfg.skipDup && tr.contains d.1) = false := by
+      have : tr.contains d.1 = false := by simpa using hd
+      rw [this]; exact Bool.and_false _
     by_cases ha : accepts r o d.1 = true
     · obtain ⟨g1, g2, _, _, _⟩ := register_ok r o d.1 ⟨gen, d.2⟩ ha
-      simp only [acquireAll, g1, if_true]
+      simp only [acquireAll, hsk', Bool.false_eq_true, if_false, g1, if_true]
       have hdis' : ∀ x ∈ ds.map (·.1), x ∉ track cfg tr d.1 := by
         intro x hx hm
         rcases (mem_track cfg tr d.1 x).mp hm with h1 | h1
@@ -680,7 +735,7 @@ theorem acquireAll_exact (cfg : Cfg) (o : OwnerName) (gen : Nat) : ∀ (decl : L
       omega
     · have ha' : accepts r o d.1 = false := by simpa using ha
       obtain ⟨g1, g2, _, _, _⟩ := register_refused r o d.1 ⟨gen, d.2⟩ ha'
-      simp only [acquireAll, g1, Bool.false_eq_true, if_false]
+      simp only [acquireAll, hsk', g1, Bool.false_eq_true, if_false]
       rw [g2]
 
 /-- when definitions are started at once and no definition names a service twice, the count stays exact -/
@@ -736,57 +791,57 @@ theorem eq_step (cfg : Cfg) (hd : cfg.delayTopLevel = false) (st : MState) (op :
 
 /-! ### the handler after a definition -/
 
-theorem acquireAll_handler_frame (cfg : Cfg) (o : OwnerName) (gen : Nat) : ∀ (decl : List (Svc × Resp)) (r : Reg)
-    (tr : List Svc) (k : Svc), k ∉ decl.map (·.1) →
-    aget k (acquireAll cfg o gen r decl tr).reg.handler = aget k r.handler := by
-  intro decl
-  induction decl with
-  | nil => intro r tr k _; rfl
-  | cons d ds ih =>
-    intro r tr k hk
-    have hk1 : k ≠ d.1 := fun e => hk (by simp [e])
-    have hk2 : k ∉ ds.map (·.1) := fun e => hk (by simp [e])
-    by_cases ha : accepts r o d.1 = true
-    · obtain ⟨g1, _, g3, _, _⟩ := register_ok r o d.1 ⟨gen, d.2⟩ ha
-      simp only [acquireAll, g1, if_true]
-      rw [ih _ _ k hk2, g3]; simp [hk1]
-    · have ha' : accepts r o d.1 = false := by simpa using ha
-      obtain ⟨g1, _, g3, _, _⟩ := register_refused r o d.1 ⟨gen, d.2⟩ ha'
-      simp only [acquireAll, g1, Bool.false_eq_true, if_false]
-      rw [g3]
-
-/-- when every declaration is accepted, each declared name is tracked and handled by this definition -/
-theorem acquireAll_ok (cfg : Cfg) (o : OwnerName) (gen : Nat) : ∀ (decl : List (Svc × Resp)) (r : Reg) (tr : List Svc),
+/-- when every declaration is accepted, each declared name is tracked, and every tracked name is handled by this
+definition with a `supports_response` it declared (`D` is the whole declaration list of the definition) -/
+theorem acquireAll_ok (cfg : Cfg) (o : OwnerName) (gen : Nat) (D : List (Svc × Resp)) :
+    ∀ (decl : List (Svc × Resp)) (r : Reg) (tr : List Svc), (∀ d ∈ decl, d ∈ D) →
+    (∀ x ∈ tr, ∃ rs, (x, rs) ∈ D ∧ aget x r.handler = some ⟨gen, rs⟩) →
     (acquireAll cfg o gen r decl tr).ok = true →
-    (∀ x ∈ tr, x ∈ (acquireAll cfg o gen r decl tr).tracked) ∧
-    (∀ k ∈ decl.map (·.1), k ∈ (acquireAll cfg o gen r decl tr).tracked ∧
-      ∃ rs, (k, rs) ∈ decl ∧ aget k (acquireAll cfg o gen r decl tr).reg.handler = some ⟨gen, rs⟩) := by
+    (∀ x ∈ (acquireAll cfg o gen r decl tr).tracked,
+      ∃ rs, (x, rs) ∈ D ∧ aget x (acquireAll cfg o gen r decl tr).reg.handler = some ⟨gen, rs⟩) ∧
+    (∀ k ∈ decl.map (·.1), k ∈ (acquireAll cfg o gen r decl tr).tracked) ∧
+    (∀ x ∈ tr, x ∈ (acquireAll cfg o gen r decl tr).tracked) := by
   intro decl
   induction decl with
-  | nil => intro r tr _; exact ⟨fun x hx => hx, fun k hk => by simp at hk⟩
+  | nil => intro r tr _ hinv _; exact ⟨hinv, fun k hk => by simp at hk, fun x hx => hx⟩
   | cons d ds ih =>
-    intro r tr hok
+    intro r tr hD hinv hok
+    have hD' : ∀ x ∈ ds, x ∈ D := fun x hx => hD x (by simp [hx])
+    by_cases hsk : (cfg.skipDup && tr.contains d.1) = true
+    · simp only [acquireAll, hsk, if_true] at hok ⊢
+      obtain ⟨i1, i2, i3⟩ := ih r tr hD' hinv hok
+      refine ⟨i1, fun k hk => ?_, i3⟩
+      simp only [List.map_cons, List.mem_cons] at hk
+      rcases hk with e | e
+      · subst e
+        have : d.1 ∈ tr := by
+          have : tr.contains d.1 = true := by
+            revert hsk; cases cfg.skipDup <;> simp
+          simpa using this
+        exact i3 _ this
+      · exact i2 k e
+    have hsk' : (cfg.skipDup && tr.contains d.1) = false := by simpa using hsk
     by_cases ha : accepts r o d.1 = true
     · obtain ⟨g1, _, g3, _, _⟩ := register_ok r o d.1 ⟨gen, d.2⟩ ha
-      simp only [acquireAll, g1, if_true] at hok ⊢
-      obtain ⟨i1, i2⟩ := ih _ _ hok
-      have hmem : d.1 ∈ track cfg tr d.1 := (mem_track cfg tr d.1 d.1).mpr (Or.inr rfl)
-      have hsub : ∀ x ∈ tr, x ∈ track cfg tr d.1 := fun x hx => (mem_track cfg tr d.1 x).mpr (Or.inl hx)
-      refine ⟨fun x hx => i1 x (hsub x hx), fun k hk => ?_⟩
-      by_cases hin : k ∈ ds.map (·.1)
-      · obtain ⟨j1, rs, j2, j3⟩ := i2 k hin
-        exact ⟨j1, rs, by simp [j2], j3⟩
-      · have hk' : k = d.1 := by
-          simp only [List.map_cons, List.mem_cons] at hk
-          rcases hk with e | e
-          · exact e
-          · exact absurd e hin
-        subst hk'
-        refine ⟨i1 _ hmem, d.2, by simp, ?_⟩
-        rw [acquireAll_handler_frame cfg o gen ds _ _ _ hin, g3]; simp
+      simp only [acquireAll, hsk', Bool.false_eq_true, if_false, g1, if_true] at hok ⊢
+      have hinv' : ∀ x ∈ track cfg tr d.1, ∃ rs, (x, rs) ∈ D ∧
+          aget x (register r o d.1 ⟨gen, d.2⟩).1.handler = some ⟨gen, rs⟩ := by
+        intro x hx
+        by_cases e : x = d.1
+        · subst e; exact ⟨d.2, hD d (by simp), by rw [g3]; simp⟩
+        · rcases (mem_track cfg tr d.1 x).mp hx with h1 | h1
+          · obtain ⟨rs, a1, a2⟩ := hinv x h1
+            exact ⟨rs, a1, by rw [g3]; simp [e, a2]⟩
+          · exact absurd h1 e
+      obtain ⟨i1, i2, i3⟩ := ih _ _ hD' hinv' hok
+      refine ⟨i1, fun k hk => ?_, fun x hx => i3 x ((mem_track cfg tr d.1 x).mpr (Or.inl hx))⟩
+      simp only [List.map_cons, List.mem_cons] at hk
+      rcases hk with e | e
+      · subst e; exact i3 _ ((mem_track cfg tr d.1 d.1).mpr (Or.inr rfl))
+      · exact i2 k e
     · have ha' : accepts r o d.1 = false := by simpa using ha
       obtain ⟨g1, _, _, _, _⟩ := register_refused r o d.1 ⟨gen, d.2⟩ ha'
-      simp [acquireAll, g1] at hok
+      simp only [acquireAll, hsk', g1, Bool.false_eq_true, if_false] at hok
 
 /-! ### keyword arguments -/
 
